@@ -59,9 +59,21 @@ def handle (op : String) (args : List String) : Option String :=
   | "parse", ["json", line] => do
     let line ← ofHex line
     pure (lineStr (jsonParse line))
+  | "lines", [file] => do
+    -- the lines `processLogFile` delivers (comma-joined hex; `-` = empty line; `none` = no line at all)
+    let file ← ofHex file
+    let ls := scanLines file
+    pure (if ls.isEmpty then "none" else ",".intercalate (ls.map hexOf))
   | "verify", ["json", key, file] => do
     let key ← ofHex key; let file ← ofHex file
-    pure (verdictStr (verify C key ((scanLines file).map jsonParse)))
+    pure (verdictStr (verifyFile C key jsonParse file))
+  | "verifyfiles", "json" :: key :: files => do
+    let key ← ofHex key; let files ← files.mapM ofHex
+    pure (verdictStr (verifyFiles C key jsonParse files))
+  | "verifyfiles", fmt :: key :: files => do
+    let (mode, trim, _) ← modeOf fmt
+    let key ← ofHex key; let files ← files.mapM ofHex
+    pure (verdictStr (verifyFiles C key (parseLine mode trim) files))
   | "jenc", [s] => do
     let s ← ofHex s
     pure (hexOf (encStr s))
@@ -83,7 +95,7 @@ def handle (op : String) (args : List String) : Option String :=
   | "verify", [fmt, key, file] => do
     let (mode, trim, _) ← modeOf fmt
     let key ← ofHex key; let file ← ofHex file
-    pure (verdictStr (verify C key ((scanLines file).map (parseLine mode trim))))
+    pure (verdictStr (verifyFile C key (parseLine mode trim) file))
   | "verifyp", key :: _file :: specs => do
     let key ← ofHex key
     let ls ← specs.mapM parseSpec
